@@ -148,6 +148,33 @@ fn is_int(v: &Val) -> bool {
     matches!(v, Val::I(_) | Val::U(_))
 }
 
+fn int_ty_of(ty: &str) -> Option<IntTy> {
+    Some(match ty {
+        "u8" => IntTy::U8,
+        "i8" => IntTy::I8,
+        "u16" => IntTy::U16,
+        "i16" => IntTy::I16,
+        "u32" => IntTy::U32,
+        "i32" => IntTy::I32,
+        "u64" => IntTy::U64,
+        "i64" => IntTy::I64,
+        "u128" => IntTy::U128,
+        "i128" => IntTy::I128,
+        "usize" => IntTy::Usize,
+        "isize" => IntTy::Isize,
+        _ => return None,
+    })
+}
+/// bitwise complement of an integer value in type `ty`
+fn bitnot(v: &Val, ty: &str) -> Option<Val> {
+    let t = int_ty_of(ty)?;
+    match (v, t.max()) {
+        (Val::I(x), _) => Some(Val::I(!*x)),
+        (Val::U(x), Val::U(hi)) => Some(Val::U(hi - x)),
+        _ => None,
+    }
+}
+
 fn fits(v: &Val, ty: &str) -> bool {
     // does v fit into type `ty`? (for helper constants such as v-1)
     let t = match ty {
@@ -359,6 +386,37 @@ pub fn bound_src(b: &Bound, ty: &str, it: &mut Items) -> Option<String> {
             let one = if fl { "1.0" } else { "1" };
             Some(format!("-{k} + {one}"))
         }
+        Form::NotLit => {
+            let n = bitnot(v, ty)?;
+            Some(format!("!{}", num_lit(&n)?))
+        }
+        Form::NotConst => {
+            let n = bitnot(v, ty)?;
+            let k = it.konst(ty, &n);
+            Some(format!("!{k}"))
+        }
+        Form::NegLitParen => {
+            let n = neg(v)?;
+            if !fits(&n, ty) {
+                return None;
+            }
+            let l = num_lit(&n)?;
+            if l.contains("inf") || l.contains("NaN") {
+                return None;
+            }
+            Some(format!("-({l})"))
+        }
+        Form::DoubleNeg => {
+            let l = num_lit(v)?;
+            if l.starts_with('-') || l.contains("inf") || l.contains("NaN") {
+                return None;
+            }
+            // only where -v is representable as an intermediate value
+            if !fits(&neg(v)?, ty) {
+                return None;
+            }
+            Some(format!("-(-{l})"))
+        }
         Form::ModPath => {
             let m = it.fresh("km");
             it.items.push(format!("pub mod {m} {{ pub const K: {ty} = {}; }}", value_expr(v, ty)));
@@ -398,6 +456,8 @@ pub fn ufn_path(f: UFn, inner: Inner) -> String {
         UFn::Not13 => "not_13",
         UFn::IsIntegral => "is_integral",
         UFn::NoX => "no_x",
+        UFn::FirstNotX => "first_not_x",
+        UFn::InvSmall => "inv_small",
         UFn::HasA => "has_a",
         UFn::VecNonEmpty => "vec_nonempty",
         UFn::VecShort => "vec_short",
@@ -432,6 +492,7 @@ pub fn ufn_src(f: UFn, sp: Spell, inner: Inner, role: FnRole) -> String {
     };
     match sp {
         Spell::Path => p,
+        Spell::Bare => p.trim_start_matches("ulib::").to_string(),
         Spell::Closure => format!("|v| {p}(v)"),
         Spell::ClosureTyped => format!("|v: {arg_ty}| {p}(v)"),
         Spell::ClosureMut => format!("|mut v| {{ v = {p}(v); v }}"),
@@ -524,7 +585,10 @@ pub fn block_src(d: &Decl, b: Block, it: &mut Items) -> Option<Option<String>> {
                 Some(format!("derive({}{tc})", xs.join(", ")))
             }
         }
-        Block::Default => d.default.as_ref().map(|v| format!("default = {}", value_expr(v, d.inner.ty_src()))),
+        Block::Default => match (&d.default_src, &d.default) {
+            (Some(src), Some(_)) => Some(format!("default = {src}")),
+            (_, v) => v.as_ref().map(|v| format!("default = {}", value_expr(v, d.inner.ty_src()))),
+        },
         Block::ConstFn => {
             if d.const_fn {
                 Some("const_fn".into())
@@ -559,6 +623,29 @@ pub fn render(d: &Decl) -> Option<DeclSrc> {
         attr.push(',');
     }
     let item = format!("{}struct {}{}({});", d.vis.src(), d.name, d.inner.generics_decl(), d.inner.ty_src());
+    // functions spelled as a bare identifier are imported next to the declaration
+    let mut bare: Vec<UFn> = vec![];
+    for s in &d.sans {
+        if let San::With(f, Spell::Bare) = s {
+            bare.push(*f);
+        }
+    }
+    match &d.validation {
+        Validation::Std(vs) => {
+            for v in vs {
+                if let Vd::Predicate(f, Spell::Bare) = v {
+                    bare.push(*f);
+                }
+            }
+        }
+        Validation::Custom(f, Spell::Bare) => bare.push(*f),
+        _ => {}
+    }
+    bare.sort();
+    bare.dedup();
+    for f in bare {
+        it.items.push(format!("#[allow(unused_imports)] use {};", ufn_path(f, d.inner)));
+    }
     Some(DeclSrc { items: it.items, attr, item })
 }
 
